@@ -49,6 +49,7 @@ func (c05) Gates(tier string, m map[string]int64) []rt.Gate {
 		rt.GateMin("statements with a duplicated field name", m, "duplicate_alias", 50),
 		rt.GateMin("ORDER BY on a field defined through another field's name", m, "order_by_field_defined_through_a_name", 200),
 		rt.GateMin("field names and chunk keys with colliding concatenations", m, "colliding_name_key_concatenations", 200),
+		rt.GateMin("list-valued named fields used by several distance calls", m, "vector_valued_named_field", 200),
 	}
 }
 
@@ -98,10 +99,49 @@ func (k c05) collide(c *rt.Ctx) {
 	}
 }
 
+// vectors: a list-valued field used by name in several distance calls (and in the filter):
+// every use must see the field's own value.
+func (k c05) vectors(c *rt.Ctx) {
+	r := c.R
+	st := gen.NewStore(r, gen.FNum)
+	ctor := []string{"flist", "float_list", "list"}[r.Intn(3)]
+	vdef := gen.Call(ctor, gen.Call("float", gen.Value()), gen.Float([]string{"4.0", "0.5", "2.5"}[r.Intn(3)]))
+	v := func() *gen.Node { return gen.Ref("vec", vdef) }
+	other := func() *gen.Node {
+		return gen.Call("flist", gen.Float([]string{"1.0", "0.5", "3.0"}[r.Intn(3)]), gen.Float([]string{"1.0", "0.0", "2.0"}[r.Intn(3)]))
+	}
+	dist := func() *gen.Node {
+		if r.Bool() {
+			return gen.Call("l2_distance", v(), other())
+		}
+		return gen.Call("cosine_distance", v(), other())
+	}
+	stmt := &gen.Stmt{Kind: "select", Fields: []gen.Field{{E: gen.Key()}, {E: vdef, Alias: "vec"}, {E: gen.Call("l2_distance", v(), other()), Alias: "d1"}, {E: dist(), Alias: "d2"}}}
+	switch r.Intn(3) {
+	case 0:
+		stmt.Where = gen.Bin(">", gen.Call("int", gen.Value()), gen.Int(2))
+	case 1:
+		stmt.Where = gen.Bin(">=", gen.Call("l2_distance", v(), other()), gen.Float("0.5"))
+	default:
+		stmt.Where = gen.And(gen.Bin("!=", gen.Value(), gen.Str("5")), gen.Bin(">=", dist(), gen.Float("0.0")))
+	}
+	if r.Chance(1, 3) {
+		stmt.OrderBy = []gen.OrderItem{{Name: "d1", Desc: r.Bool()}}
+	}
+	c.Rec.Inc("vector_valued_named_field")
+	if hit := k.judge(c, stmt, st.Pairs, ""); hit != "" {
+		k.judge(c, stmt, st.Pairs, stmt.Text(gen.Plain))
+	}
+}
+
 func (k c05) Run(c *rt.Ctx) {
 	r := c.R
 	if r.Chance(1, 12) {
 		k.collide(c)
+		return
+	}
+	if r.Chance(1, 15) {
+		k.vectors(c)
 		return
 	}
 	st := gen.NewStore(r, c05Families[r.Intn(len(c05Families))])
